@@ -1,4 +1,5 @@
 import OmplModel.Proofs.Ptc
+import OmplModel.Proofs.PtcCost
 /-!
 C18 - termination conditions mean exactly what they say.  Property theorems over the model
 `OmplModel.Model.Ptc` (which the check ties to the C++ code by differential runs).
@@ -127,6 +128,37 @@ theorem iter_evalN (env : Env) (i n : Nat) (k : Nat) : ∀ (s : St), s.term i = 
       simp [eval, h, callLeaf]
     simp only [evalN, List.range_succ_eq_map, List.map_cons, List.map_map]
     rw [ih _ ht, h1, h2]
+    simp only [Nat.add_zero, List.cons.injEq, true_and]
+    apply List.map_congr_left
+    intro j _
+    simp only [Function.comp, Nat.succ_eq_add_one, uintMod]
+    congr 2
+    omega
+
+/-- every interleaving: the evaluations of an iteration condition may be separated by arbitrary
+batches of other operations (evaluations, polls and terminations of conditions that do not contain
+this impl, solution reports, cost reports, new cost-convergence conditions); the `j`-th evaluation
+still answers `(c₀ + j + 1) mod 2^32 > n`. -/
+theorem iter_spec_interleaved {α} [PNum α] (env : Env) (i n : Nat) (segs : List (List (Op α))) :
+    ∀ (w : World α), w.st.term i = false → CbOk i w → (∀ seg ∈ segs, ∀ op ∈ seg, NoTouch i op) →
+    (interleave env (.leaf i false (.iter n)) segs w).1 =
+      (List.range segs.length).map (fun j => decide ((w.st.cnt i + j + 1) % uintMod > n)) := by
+  induction segs with
+  | nil => intro w _ _ _; rfl
+  | cons seg rest ih =>
+    intro w ht hcb hall
+    obtain ⟨f1, f2, f3⟩ := run_frame env i seg w (hall seg (List.mem_cons_self ..)) hcb
+    have ht1 : (w.run env seg).st.term i = false := f1.trans ht
+    have h1 : (eval env (.leaf i false (.iter n)) (w.run env seg).st).1 = decide ((w.st.cnt i + 1) % uintMod > n) := by
+      simp [eval, ht1, callLeaf, f2]
+    have h2 : (eval env (.leaf i false (.iter n)) (w.run env seg).st).2.cnt i = (w.st.cnt i + 1) % uintMod := by
+      simp [eval, ht1, callLeaf, f2]
+    have h3 : (eval env (.leaf i false (.iter n)) (w.run env seg).st).2.term i = false := by
+      rw [eval_term]; exact ht1
+    have ih' := ih { (w.run env seg) with st := (eval env (.leaf i false (.iter n)) (w.run env seg).st).2 } h3
+      (fun cc hcc => f3 cc hcc) (fun s hs => hall s (List.mem_cons_of_mem _ hs))
+    simp only [interleave, List.length_cons, List.range_succ_eq_map, List.map_cons, List.map_map]
+    rw [ih', h1, h2]
     simp only [Nat.add_zero, List.cons.injEq, true_and]
     apply List.map_congr_left
     intro j _
@@ -267,5 +299,69 @@ theorem exactSoln_clear (s : St) : hasExact (clearSolns s).solns = false := by
   simp [clearSolns, hasExact]
 
 example : (eval ⟨fun _ _ => false, fun _ => 0⟩ (.leaf 0 false .exact) (addSoln false (addSoln true {}))).1 = true := by decide
+
+/-! ### cost convergence `[EX over ℚ]`
+
+`avg`, `FiresAt`, `reportSeq` are defined in `Proofs/PtcCost.lean`: `avg win c k` is the property's
+recurrence (`avg₀ = 0`, `avgₖ = ((m-1)·avgₖ₋₁ + cₖ)/m`, `m = min(k, window)` - the cumulative mean
+of the first `window` costs, then an exponential smoothing with weight `1/window`);
+`FiresAt win ε c k` says `k ≥ 1`, `k ≥ window` and `(1-ε)·avgₖ₋₁ < avgₖ < (1+ε)·avgₖ₋₁`;
+`reportSeq c k w` pushes `c 0 … c (k-1)` through the callback (`processNewSolution`, as coded). -/
+
+/-- after `k` reported solutions the condition is true iff some report `j ≤ k` qualified: it fires
+at precisely the first qualifying report and stays fired.  Every window `1 ≤ win < 2^64`, every ε,
+every cost sequence, every `k`. -/
+theorem costConv_spec (env : Env) (i win : Nat) (eps : ℚ) (c : Nat → ℚ) (hw1 : 1 ≤ win) (hw2 : win < sizeMod)
+    (w0 : World ℚ) (ht : w0.st.term i = false) (k : Nat) :
+    (eval env (newCostConv i win eps w0).1 (reportSeq c k (newCostConv i win eps w0).2).st).1 = true ↔
+      ∃ j, j ≤ k ∧ FiresAt win eps c j := by
+  have h := (reportSeq_spec i win eps c hw1 hw2 (newCostConv i win eps w0).2
+    (by simp [newCostConv, PNum.ofNat]) (by simpa [newCostConv] using ht) k).2
+  simp only [newCostConv] at h ⊢
+  rw [never_const]
+  exact h
+
+/-- not before the first qualifying report -/
+theorem costConv_not_before (env : Env) (i win : Nat) (eps : ℚ) (c : Nat → ℚ) (hw1 : 1 ≤ win) (hw2 : win < sizeMod)
+    (w0 : World ℚ) (ht : w0.st.term i = false) (k : Nat) (hnone : ∀ j, j ≤ k → ¬ FiresAt win eps c j) :
+    (eval env (newCostConv i win eps w0).1 (reportSeq c k (newCostConv i win eps w0).2).st).1 = false := by
+  cases hv : (eval env (newCostConv i win eps w0).1 (reportSeq c k (newCostConv i win eps w0).2).st).1 with
+  | false => rfl
+  | true =>
+    obtain ⟨j, hj, hf⟩ := (costConv_spec env i win eps c hw1 hw2 w0 ht k).mp hv
+    exact absurd hf (hnone j hj)
+
+/-- from the qualifying report on, for ever -/
+theorem costConv_stays_fired (env : Env) (i win : Nat) (eps : ℚ) (c : Nat → ℚ) (hw1 : 1 ≤ win) (hw2 : win < sizeMod)
+    (w0 : World ℚ) (ht : w0.st.term i = false) (k0 k : Nat) (hf : FiresAt win eps c k0) (hk : k0 ≤ k) :
+    (eval env (newCostConv i win eps w0).1 (reportSeq c k (newCostConv i win eps w0).2).st).1 = true :=
+  (costConv_spec env i win eps c hw1 hw2 w0 ht k).mpr ⟨k0, hk, hf⟩
+
+/-- the state the callback carries is exactly `(avgₖ, k)` -/
+theorem costConv_state (i win : Nat) (eps : ℚ) (c : Nat → ℚ) (hw1 : 1 ≤ win) (hw2 : win < sizeMod)
+    (w0 : World ℚ) (ht : w0.st.term i = false) (k : Nat) :
+    (reportSeq c k (newCostConv i win eps w0).2).cb = some ⟨i, win, eps, avg win c k, k⟩ :=
+  (reportSeq_spec i win eps c hw1 hw2 (newCostConv i win eps w0).2
+    (by simp [newCostConv, PNum.ofNat]) (by simpa [newCostConv] using ht) k).1
+
+-- window 2, ε = 1/10, constant cost 1: the second report qualifies, the first cannot (avg₀ = 0)
+example : FiresAt 2 (1 / 10) (fun _ => 1) 2 ∧ ¬ FiresAt 2 (1 / 10) (fun _ => 1) 1 := by
+  constructor
+  · refine ⟨by norm_num, by norm_num, ?_, ?_⟩ <;> norm_num [avg]
+  · intro h; exact absurd h.2.1 (by norm_num)
+
+/-! ### `Planner::solve(double)` `[EX over ℚ]` -/
+
+/-- `solve(t)` uses the direct timed condition iff `t < 1`, otherwise the polled one with interval
+`min(t/100, 0.1)`; that interval is positive (so the impl really polls) and not larger than the
+duration (so `timedPlannerTerminationCondition(duration, interval)` does not clamp it). -/
+theorem solve_double_picks_polled (t : ℚ) :
+    (t < 1 → solveDouble t = .direct t) ∧
+    (1 ≤ t → solveDouble t = .polled t (min (t / 100) (1 / 10)) ∧
+      timedInterval t (min (t / 100) (1 / 10)) = min (t / 100) (1 / 10) ∧ 0 < min (t / 100) (1 / 10)) :=
+  ⟨solveDouble_lt t, fun h => ⟨solveDouble_ge t h, solve_interval_ok t h⟩⟩
+
+example : solveDouble (5 : ℚ) = .polled 5 (1 / 20) := by
+  rw [solveDouble_ge 5 (by norm_num)]; norm_num
 
 end OmplModel.Props.C18
